@@ -75,11 +75,14 @@ func (g *gen) goodInt() *jv {
 
 func (g *gen) goodStruct() *jv {
 	a := jint(int64(g.intn("A", 1, 9)))
-	switch g.pick("structform", 5, 2, 2) {
+	switch g.pick("structform", 5, 2, 2, 1) {
 	case 0:
 		return jobj(mem("a", a), mem("b", jstr(sample(g, "B", goodStrings...))))
 	case 1:
 		return jobj(mem("a", a))
+	case 3: // null for a string field: encoding/json leaves it ""
+		g.c.Label("nested-null:struct-field")
+		return jobj(mem("a", a), mem("b", jnull()))
 	default:
 		return jobj(mem("b", jstr(sample(g, "B", goodStrings...))), mem("a", a))
 	}
@@ -155,6 +158,11 @@ func (g *gen) goodValue(t ptype) *jv {
 		n := g.intn("nints", 0, 4)
 		v := jarr()
 		for i := 0; i < n; i++ {
+			if g.pick("elemnull", 9, 1) == 1 { // null element of []int: encoding/json leaves it 0
+				g.c.Label("nested-null:slice-element")
+				v.a = append(v.a, jnull())
+				continue
+			}
 			v.a = append(v.a, g.goodInt())
 		}
 		return v
@@ -191,6 +199,20 @@ func (g *gen) goodValue(t ptype) *jv {
 			v.o = append(v.o, mem(sample(g, "mkey", "k", "", "a", "ключ")+strconv.Itoa(i), e))
 		}
 		return v
+	case tNoNull:
+		return g.goodInt()
+	case tMapStruct:
+		if g.pick("mapnull", 6, 1) == 1 {
+			return jnull()
+		}
+		n := g.intn("nmap", 0, 3)
+		v := jobj()
+		for i := 0; i < n; i++ {
+			v.o = append(v.o, mem(sample(g, "mkey", "k", "", "a", "ключ")+strconv.Itoa(i), g.goodStruct()))
+		}
+		return v
+	case tReqStruct:
+		return jobj(mem("name", jstr(sample(g, "reqname", goodStrings[1:]...))))
 	default:
 		return g.anyJSON(3)
 	}
@@ -200,6 +222,13 @@ func (g *gen) goodValue(t ptype) *jv {
 func (g *gen) badValue(t ptype) *jv {
 	str, num, fl, arr, obj, tr := jstr("x"), jint(5), jnum("1.5"), jarr(jint(1)), jobj(mem("a", jint(1))), jbool(true)
 	switch t {
+	case tNoNull:
+		return sample(g, "badnn", str, tr, fl, arr, obj, jnum("9223372036854775808"))
+	case tMapStruct:
+		return sample(g, "badmapval", num, str, arr, jobj(mem("k", jint(5))), jobj(mem("k", jobj(mem("a", jint(0))))),
+			jobj(mem("k", jnull())), jobj(mem("j", g.goodStruct()), mem("k", jnull())))
+	case tReqStruct:
+		return sample(g, "badreq", num, str, arr, jobj(), jobj(mem("name", jstr(""))), jobj(mem("name", jnull())), jobj(mem("name", jint(5))))
 	case tInt, tPtrInt:
 		return sample(g, "badint", str, tr, fl, arr, obj, jnum("9223372036854775808"), jnum("-1.25e-3"), jstr("7"))
 	case tStr, tPtrStr:
@@ -210,9 +239,9 @@ func (g *gen) badValue(t ptype) *jv {
 		return sample(g, "badints", num, str, obj, jarr(jint(1), jstr("x")), jarr(fl), tr)
 	case tStruct, tPtrStruct:
 		return sample(g, "badstruct", num, str, arr, tr, jobj(mem("a", jint(0))), jobj(mem("a", jint(-3)), mem("b", jstr("x"))),
-			jobj(mem("a", jstr("x"))), jobj(mem("b", jstr("only-b"))), jobj(mem("a", jint(1)), mem("b", jint(2))), jobj())
+			jobj(mem("a", jstr("x"))), jobj(mem("b", jstr("only-b"))), jobj(mem("a", jint(1)), mem("b", jint(2))), jobj(), jobj(mem("a", jnull()), mem("b", jstr("x"))))
 	case tStructs:
-		return sample(g, "badstructs", num, str, obj, jarr(jobj(mem("a", jint(0)))), jarr(jint(5)), jarr(jobj(mem("a", jint(2))), jobj(mem("b", jstr("x")))))
+		return sample(g, "badstructs", num, str, obj, jarr(jobj(mem("a", jint(0)))), jarr(jint(5)), jarr(jobj(mem("a", jint(2))), jobj(mem("b", jstr("x")))), jarr(jnull()), jarr(jobj(mem("a", jint(2))), jnull()))
 	case tMapPtr:
 		return sample(g, "badmap", num, str, arr, jobj(mem("k", jint(5))), jobj(mem("k", jobj(mem("a", jint(0))))), jobj(mem("k", jnull()), mem("j", jobj())))
 	}
@@ -282,8 +311,31 @@ func (g *gen) paramsFor(sp *mspec) (p *jv, scen string) {
 		}
 		return g.named(sp, vals, drop), "named"
 	}
-	w := []int{60, 3, 2, 2, 5, 5, 5, 4, 9, 3, 2}
+	w := []int{54, 3, 2, 2, 5, 5, 5, 4, 9, 3, 2, 10}
 	switch g.pick("pscen", w...) {
+	case 11: // an explicit null for one parameter (any kind, required or optional), the others good
+		if n == 0 {
+			return good()
+		}
+		k := n
+		if n > req && g.pick("tail", 2, 1) == 1 {
+			k = g.intn("nargs", max(req, 1), n)
+		}
+		vals := make([]*jv, k)
+		for i := range vals {
+			vals[i] = g.goodValue(sp.params[i].t)
+		}
+		at := g.uniform("nullat", k)
+		vals[at] = jnull()
+		if g.pick("allnull", 9, 1) == 1 {
+			for i := range vals {
+				vals[i] = jnull()
+			}
+		}
+		if g.pick("form", 1, 1) == 0 {
+			return positional(vals), "null-arg(positional)"
+		}
+		return g.named(sp, vals, nil), "null-arg(named)"
 	case 1:
 		return nil, "omitted"
 	case 2:
